@@ -99,11 +99,22 @@ def run(facts, tr, rep):
         # the permit comes from the shared semaphore
         for (a, kind, ac, acq) in bh.acquire_awaits(b):
             recv = peel(tr.expand(tr.operand(acq.g.b, acq.args[0], acq.loc)))
-            src = recv
-            if src[0] == "call" and tr.call_of(src).def_ == CLONE:
-                cc = tr.call_of(src)
-                src = peel(tr.expand(tr.operand(cc.g.b, cc.args[0], cc.loc)))
-            oks = src[0] == "field" and peel(src[1])[0] == "param" and _field_is_semaphore(facts, src)
+            def unclone(n_):
+                n_ = peel(n_)
+                hops = 0
+                while n_[0] == "call" and tr.call_of(n_).def_ == CLONE and hops < 4:
+                    cc = tr.call_of(n_)
+                    n_ = peel(tr.expand(tr.operand(cc.g.b, cc.args[0], cc.loc), upvars=True))
+                    hops += 1
+                return n_
+            src = unclone(recv)
+            # the semaphore may sit in a private struct of shared handles that is itself a (cloned) field of the service
+            root = src
+            depth_ = 0
+            while root[0] == "field" and depth_ < 3:
+                root = unclone(root[1])
+                depth_ += 1
+            oks = src[0] == "field" and root[0] == "param" and _field_is_semaphore(facts, src)
             rep.ob("C01.ADMIT-SEM", skey(b, "acquire@%s" % kind), oks, acq.where(),
                    "permits are acquired from (a clone of) the service's shared semaphore" if oks else
                    "permits are acquired from %s, not the service's shared semaphore" % show(src))
